@@ -381,3 +381,18 @@ Proof.
   pose proof (index_match_same_adapter prefix ads sequence r0 r rs re e m Hall Hres) as ->.
   exists rs, re, e, m. split; [exact Hres|]. eapply index_match_coords; eauto.
 Qed.
+
+(** the N fallback (after the repair of F8c): what it reports is a match of that adapter against the
+    affix that covers the whole affix, with that match's errors and score *)
+Lemma lookup_with_n_covers ads affix r e sc :
+  lookup_with_n ads affix = Some (r, e, sc) ->
+  exists a mt, nth_error ads r = Some a /\ match_to (thr_of (ia_thr a)) (ia_ad a) affix = Some mt /\
+               rstop mt - rstart mt = zlen affix /\ e = merrors mt /\ sc = mscore mt.
+Proof.
+  unfold lookup_with_n. intros H.
+  destruct (index_lookup ads (map (fun c => if c =? 78 then 65 else c) affix)) as [[[r' e'] m']|]; [|discriminate].
+  destruct (nth_error ads r') as [a|] eqn:En; [|discriminate].
+  destruct (match_to (thr_of (ia_thr a)) (ia_ad a) affix) as [mt|] eqn:Em; [|discriminate].
+  destruct (rstop mt - rstart mt =? zlen affix) eqn:Ec; [|discriminate].
+  injection H as <- <- <-. exists a, mt. apply Z.eqb_eq in Ec. auto.
+Qed.
